@@ -306,9 +306,19 @@ int filter_tee_header (struct filter *chain)
 		lerr (_("error closing output file %s"),
 			env.outfilename != NULL ? env.outfilename : "<stdout>");
 
-	while (wait (0) > 0) ;
+	{
+		/* The header branch runs in children of this process: their
+		 * failures (e.g. a header file that cannot be written) have to
+		 * show in our own exit status.
+		 */
+		int     status, failed = 0;
 
-	FLEX_EXIT (0);
+		while (wait (&status) > 0) {
+			if (!WIFEXITED (status) || WEXITSTATUS (status) != 0)
+				failed = 1;
+		}
+		FLEX_EXIT (failed);
+	}
 	return 0;
 }
 
